@@ -383,3 +383,24 @@ Proof.
   - intros p c Hin. apply grand_pairs_In in Hin as [[r [Hr Er]] [y [Hy Hz]]]. subst p. split; [apply Hrows; exact Hr|].
     apply children_of_In in Hz. exact (Hrels _ Hz).
 Qed.
+
+(* ---------- never its own relative ---------- *)
+Section NotSelf.
+  Variable call : nat -> row -> option str.
+
+  (* "x never its own relative": on annotation graphs without self-parents and without two-cycles (in particular on the
+     DAGs the property quantifies over) no relation row relates a feature to itself, at any level *)
+  Theorem l_not_self feats st : in_domain feats = true ->
+    import_gff call SError [] (SList [KAttr IDK]) feats empty_st = Ok st ->
+    (forall f, In f feats -> ~ In (fid f) (parents_of f)) ->
+    (forall f g, In f feats -> In g feats -> In (fid g) (parents_of f) -> ~ In (fid f) (parents_of g)) ->
+    forall x l, ~ In (mkRel x x l) (s_rels st).
+  Proof.
+    intros D I H1 H2 x l Hin. destruct (l_levels_only call feats st D I _ Hin) as [L|L]; cbn [rel_level] in L; subst l.
+    - apply (l_level1 call feats st D I) in Hin as [f [Hf [Ef Hp]]]. apply (H1 f Hf). rewrite Ef. exact Hp.
+    - apply (l_level2 call feats st D I) in Hin as [_ [y [A B]]].
+      apply (l_level1 call feats st D I) in A as [f1 [Hf1 [E1 P1]]].
+      apply (l_level1 call feats st D I) in B as [f2 [Hf2 [E2 P2]]].
+      apply (H2 f1 f2 Hf1 Hf2); [rewrite E2; exact P1|rewrite E1; exact P2].
+  Qed.
+End NotSelf.
